@@ -35,7 +35,7 @@ def one(n):
     return n, res
 
 
-with ThreadPoolExecutor(5) as ex:
+with ThreadPoolExecutor(8) as ex:
     out = dict(ex.map(one, names))
 path = f"{V}/seeded/MATRIX.json"
 old = json.load(open(path)) if os.path.exists(path) else {}
